@@ -358,6 +358,33 @@ def oracle_C02(objs, st=None):
     return st
 
 
+def oracle_C02_wild(st, seed, count):
+    """inputs on which the first-order solve may NOT converge: the returned profile has a small residual or a warning was logged"""
+    import logging
+    from qsccap import LogCapture
+    from qsc import Qsc
+    rng = np.random.default_rng(seed + 202)
+    for t in range(count):
+        nfp = int(rng.integers(1, 6))
+        kw = dict(rc=[1.0, float(rng.uniform(-0.45, 0.45)), float(rng.uniform(-0.2, 0.2))], zs=[0.0, float(rng.uniform(-0.45, 0.45)), float(rng.uniform(-0.2, 0.2))],
+                  nfp=nfp, etabar=float(rng.uniform(0.1, 6) * rng.choice([-1, 1])), sigma0=float(rng.normal() * 2), I2=float(rng.normal() * 3),
+                  nphi=int(rng.choice([7, 9, 11, 15])), sG=int(rng.choice([-1, 1])), spsi=int(rng.choice([-1, 1])), order='r1')
+        try:
+            with np.errstate(all='ignore'):
+                with LogCapture(logging.WARNING) as lc:
+                    q = Qsc(**kw)
+        except Exception:
+            continue
+        warned = any('did not get close' in r.getMessage() for r in lc.records)
+        x = np.concatenate(([q.iota], q.sigma[1:]))
+        with np.errstate(all='ignore'):
+            res = q._residual(x)
+            rn = float(np.sqrt(np.sum(res * res)))
+        st.distinct.add(('wild', t, warned))
+        st.check('residual norm below 1e-9 or a warning was logged', 0.0 if (rn <= 1e-9 or warned) else (rn if rn == rn else float('inf')), 1e-9, dict(kind='wild', kwargs=kw), detail=dict(residual_norm=rn, warned=warned))
+    return st
+
+
 def shooting_iota(q, nfine=4001):
     """independent solution of the continuous sigma ODE by shooting (RK4 in phi on spline-free analytic axis data)"""
     from scipy.integrate import solve_ivp
@@ -664,12 +691,25 @@ def shifted_kwargs(kw, q, k):
 COORD_ATTRS = {'varphi', 'phi'}
 
 
+RSING_ATTRS = ('r_singularity', 'r_singularity_vs_varphi', 'r_singularity_basic_vs_varphi', 'inv_r_singularity_vs_varphi')
+
+
 def compare_profiles(q1, q2, mapping, tol, st, clause, cid, skip=(), floor_attr=None):
     """mapping(name, array_of_q1) -> expected array on q2 (or None to skip)"""
     a1, a2 = numeric_attrs(q1), numeric_attrs(q2)
     worst, worst_name = 0.0, None
+    # the singularity radius is selected by tolerance filters (1e-5, 1e-7, 1e-13): under round-off-level changes of its
+    # inputs a candidate may be accepted in one description and rejected in the other (near-branch).  Its profile is
+    # therefore compared point by point with a quota: at least 80% of the grid points must follow the law to 1e-5.
+    if 'r_singularity_vs_varphi' in a1 and 'r_singularity_vs_varphi' in a2:
+        e = mapping('r_singularity_vs_varphi', a1['r_singularity_vs_varphi'])
+        if e is not None and np.shape(e) == np.shape(a2['r_singularity_vs_varphi']):
+            g = a2['r_singularity_vs_varphi']
+            with np.errstate(all='ignore'):
+                okpts = (np.abs(e - g) <= 1e-5 * np.abs(g)) | ((np.abs(e) > 1e50) & (np.abs(g) > 1e50))
+            st.check(clause + ' [singularity radius: fraction of grid points following the law >= 0.8]', 1.0 - float(np.mean(okpts)), 0.2, cid)
     for k, v in a1.items():
-        if k in skip or k not in a2:
+        if k in skip or k not in a2 or k in RSING_ATTRS:
             continue
         exp = mapping(k, v)
         if exp is None:
@@ -980,7 +1020,9 @@ def oracle_C12(objs, st=None):
         st.check('scalar is the minimum over the grid', abs(q.r_singularity - np.min(r)), 0.0, cid)
         st.check('reciprocal profile', reldiff(q.inv_r_singularity_vs_varphi, 1 / r), 1e-14, cid)
         st.check('reported radii are positive', float(np.any(r <= 0)), 0.0, cid)
-        bf = rsing_bruteforce(q, cap)
+        Lc = cap.locals.get('calculate_r_singularity', {}) if cap is not None else {}
+        wellcond = 'g0' in Lc and max(np.max(np.abs(Lc['g20'])), np.max(np.abs(Lc['g2s'])), np.max(np.abs(Lc['g2c']))) <= 1e4 * np.min(np.abs(Lc['g0'])) / max(np.min(q.R0), 1e-300) ** 2
+        bf = rsing_bruteforce(q, cap) if wellcond else None      # the root filters use absolute tolerances: well-conditioned inputs only (property quantifier)
         if bf is not None:
             fin = (r < 1e50) & (bf < 1e50)
             # the scan resolves the minimum over theta to O(dtheta^2); a reported radius must be attained (>= scan minimum - eps)
@@ -1393,11 +1435,11 @@ def same_as_fresh(q, tol=1e-12):
     return worst, wn
 
 
-def oracle_C16(objs, st=None, nhist=3, hlen=6):
+def oracle_C16(objs, st=None, nhist=3, hlen=6, n_named=None, seed=0):
     from qsc import Qsc
     import inputs
     st = st or Stats()
-    rng = np.random.default_rng(16)
+    rng = np.random.default_rng(16 + seed)
     for c, q0, cap in objs:
         for h in range(nhist):
             q = _copy.deepcopy(q0)
@@ -1452,12 +1494,13 @@ def oracle_C16(objs, st=None, nhist=3, hlen=6):
         for a in ('rc', 'zs', 'rs', 'zc'):
             st.check('the object keeps no reference to caller-owned arrays', float(np.shares_memory(getattr(qn, a), x)), 0.0, dict(case_id(c), call='set_dofs', array=a))
     # named configurations
-    for name in inputs.NAMED:
+    named = list(inputs.NAMED) if n_named is None else [inputs.NAMED[k] for k in rng.choice(len(inputs.NAMED), size=n_named, replace=False)]
+    for name in named:
         kw = inputs.named_kwargs(name)
         a, b = Qsc.from_paper(name), Qsc(**kw)
         w = max((reldiff(v, numeric_attrs(b)[k]) for k, v in numeric_attrs(a).items() if k in numeric_attrs(b)), default=0.0)
         st.check('named configuration constructs exactly what the explicit constructor call does', w, 0.0, dict(kind='named', kwargs=dict(name=name)))
-        o = Qsc.from_paper(name, etabar=0.77, nphi=15, B0=1.25)
+        o = Qsc.from_paper(name, etabar=0.77, nphi=15, B0=1.25, order='r1')
         st.check('caller overrides win over presets', float(o.etabar != 0.77 or o.nphi != 15 or o.B0 != 1.25), 0.0, dict(kind='named', kwargs=dict(name=name, overrides=dict(etabar=0.77, nphi=15, B0=1.25))))
         st.distinct.add('named' + name)
     for bad in ('no such configuration', '', 'r9 section 1.1', 6, 0, None):
